@@ -7,16 +7,16 @@ set -u
 if [ ! -d "$WT" ]; then git -C /repo worktree add -q "$WT" HEAD; fi
 git -C "$WT" checkout -q --detach $(git -C /repo rev-parse HEAD); git -C "$WT" checkout -- .
 cd "$WT"
-PYTHONPATH=$WT /venv/bin/python "$SEED/demo.py" >/dev/null 2>&1; clean_rc=$?
+PYTHONPATH=$WT:$WT/pdks/Sky130:$WT/pdks/Gf180:$WT/pdks/Asap7 /venv/bin/python "$SEED/demo.py" >/dev/null 2>&1; clean_rc=$?
 git apply "$SEED/patch.diff" || { echo "patch does not apply"; exit 3; }
 suite=$(PYTHONPATH=$WT /venv/bin/python -m pytest -q -p no:cacheprovider 2>&1 | tail -1)
-PYTHONPATH=$WT /venv/bin/python "$SEED/demo.py" >/dev/null 2>&1; bug_rc=$?
+PYTHONPATH=$WT:$WT/pdks/Sky130:$WT/pdks/Gf180:$WT/pdks/Asap7 /venv/bin/python "$SEED/demo.py" >/dev/null 2>&1; bug_rc=$?
 git checkout -- .
 echo "suite_with_patch: $suite"
 echo "demo rc clean=$clean_rc patched=$bug_rc"
 cd /verif
 git -C /repo apply "$SEED/patch.diff" || exit 3
-out=$(./check "$PROP" --tier quick 2>&1 | grep -E "VIOLATION|KNOWN-FINDING" | head -3)
+out=$(./check "$PROP" --tier quick 2>&1 | grep -E "^VIOLATION" | head -3)
 rc=$?
 git -C /repo checkout -- .
 echo "check: ${out:-no violation reported}"
